@@ -27,6 +27,12 @@ KEYWORD_NAMES = ["Ref", "Type", "Class", "Default", "Match", "Use", "Move", "Loo
                  "Case", "Do", "Return", "This", "Throw", "Union", "Using", "While", "Fn", "Let", "Mut", "Pub", "Impl", "Where", "As",
                  "Lambda", "Import", "From", "Global", "With", "Yield", "Package", "Interface"]
 ODD_NAMES = ["msg_type", "a1b", "_x", "HTTPServer2", "clOrdId", "x", "ID", "my_Field", "zcharLegacy", "stringy", "repeatCount", "rootCause"]
+# packet names with runs of capitals, digits and underscores: ToCamel(ToSnake(x)) is not ToCamel(x) for them, so every place that
+# derives a class / file / module name must derive it the same way
+ODD_PKT_NAMES = ["MDEntry", "TCPHeader", "NoMDEntries", "FXLeg", "IOI", "L2Quote"]
+
+# algorithm names are free text between quotes: characters that mean something to a formatter, a path or a shell are names too
+CHECKSUM_ALGOS = ['"CRC32"', '"SUM8"', '"XOR"', '"crc32"', '"Adler32"', '"SUM%x"', '"CRC%d%%"', '"100%"', '"CRC-32/ISO HDLC"', '"%s"']
 
 
 class Cfg:
@@ -63,6 +69,7 @@ class Cfg:
         self.more_attrs = True           # docs on length / checksum fields, @tag on every kind of field, several MetaData / options blocks
         self.wide_keys = True            # match keys that are 64-bit integers, fixed strings or MetaData-typed members
         self.def_order = True            # top-level definitions in any order (MetaData / options after the packets using them)
+        self.acronym_packets = False     # packet names with runs of capitals / digits / underscores (ODD_PKT_NAMES)
         self.__dict__.update(kw)
 
 
@@ -157,7 +164,8 @@ def gen_program(rng, cfg=None):
             al["name"] = rng.choice(["Alias", "Also", "Twin"]) + src["name"]
             al["alias_of"] = src["name"]
             al["doc"] = "`%s`" % al["name"]
-            entries.append(al)
+            # anywhere behind the entry it names (a reference declaration names an EARLIER entry): reference and plain entries interleave
+            entries.insert(rng.randint(entries.index(src) + 1, len(entries)), al)
             metas.append(al)
         k = rng.randint(1, len(entries) - 1) if (cfg.more_attrs and len(entries) > 1 and rng.random() < 0.3) else None
         if k is not None and not any(e.get("alias_of") for e in entries):     # a reference declaration names an EARLIER entry
@@ -166,7 +174,7 @@ def gen_program(rng, cfg=None):
         else:
             prog["metas"].append({"name": "Types", "entries": entries})
     npk = rng.randint(1, cfg.max_packets)
-    pnames = _names(rng, PKT_NAMES, npk)
+    pnames = _names(rng, (ODD_PKT_NAMES + PKT_NAMES[:4]) if cfg.acronym_packets else PKT_NAMES, npk)
     # packet 0 is the root; later packets may only reference packets with a larger index (no cycles)
     for i, pn in enumerate(pnames):
         nf = rng.randint(0 if i > 0 else 1, cfg.max_fields)
@@ -266,7 +274,7 @@ def gen_program(rng, cfg=None):
                     fields[-2]["_tobj"] = fields[-1]
             elif cfg.allow_checksum and r < 0.47:
                 fields.append({"kind": "checksum", "name": name, "type": rng.choice(INTS if rng.random() < 0.3 else ["u32", "u16", "u8", "u64"]), "alias": rng.random() < 0.3,
-                               "algo": rng.choice(['"CRC32"', '"SUM8"', '"XOR"', '"crc32"', '"Adler32"']), "prefixed": rng.random() < 0.5, "doc": None})
+                               "algo": rng.choice(CHECKSUM_ALGOS), "prefixed": rng.random() < 0.5, "doc": None})
             else:
                 if cfg.length_any_target and cfg.allow_length and i == 0 and not used_len and rng.random() < 0.12:
                     used_len = True
